@@ -106,6 +106,10 @@ Section Rules.
   Proof. intros; repeat split; auto; apply H. Qed.
   Lemma ext_trans a b c : ext a b -> ext b c -> ext a c.
   Proof. intros (B1 & I1 & W1 & D1 & U1) (B2 & I2 & W2 & D2 & U2). repeat split; try congruence; try lia; apply W2. Qed.
+  Lemma ext_depth' a b : ext a b -> depth b = depth a.
+  Proof. intros (_ & _ & _ & D & _). exact D. Qed.
+  Lemma ext_user' a b : ext a b -> user b = user a.
+  Proof. intros (_ & _ & _ & _ & Us). exact Us. Qed.
   Lemma ext_wf a b : ext a b -> wf_pos (pos b).
   Proof. intros (_ & _ & W & _); exact W. Qed.
 
@@ -537,30 +541,43 @@ Section ScannerProofs.
   Lemma fine_IntSuffix_ : fine (@IntSuffix_ U A) (fun _ _ _ => True).
   Proof. apply fine_skip_while. Qed.
 
-  Lemma fine_int_token start base prefixed : fine (@int_token U T start base prefixed) (fun _ _ _ => True).
+  (* int_token restores the cursor to `start` when the text is not a number (fix 3bd5fe4): `start` must be the position of an
+     earlier state s0 of the same scan *)
+  Lemma int_token_ok base prefixed (s0 sx : ST) :
+    wf_pos (pos s0) -> ext s0 sx -> post (int_token T (pos s0) base prefixed sx) (fun _ s' => ext s0 s').
   Proof.
-    intros s W. pose proof (ext_refl s W) as E. unfold int_token. step_pos.
-    destruct (buildInt T base _ prefixed); done_ret; exact I.
+    intros W0 Ex. unfold int_token. step_pos.
+    destruct (buildInt T base _ prefixed).
+    - apply post_ret. exact Ex.
+    - apply post_bind. simpl. apply ext_intro; simpl; auto; [apply (ext_depth' _ _ Ex)|apply (ext_user' _ _ Ex)].
   Qed.
-
-  Ltac finish_with L :=
-    eapply post_mono; [apply L; eapply ext_wf; eassumption|];
-    let b := fresh "b" in let s' := fresh "s'" in let E' := fresh "E'" in
-    intros b s' [E' _]; split; [eapply ext_trans; [|exact E']; assumption|exact I].
 
   Lemma fine_Num : fine (@Num U A T) (fun _ _ _ => True).
   Proof.
     intros s W. pose proof (ext_refl s W) as E. unfold Num.
     step (fine_SkipWS false). step_pos.
+    assert (W0 : wf_pos (pos s0)) by (eapply ext_wf; eassumption).
+    assert (Fin : forall base prefixed (sx : ST), ext s0 sx -> post (int_token T (pos s0) base prefixed sx) (fun _ s' => ext s s' /\ True)).
+    { intros base prefixed sx Ex. eapply post_mono; [apply (int_token_ok base prefixed s0 sx W0 Ex)|].
+      intros o s' E'. split; [eapply ext_trans; eauto|exact I]. }
     step_at (fine_at_alpha (a_float A)).
     match goal with |- context [if ?c then _ else _] => destruct c end; [|done_ret; exact I].
-    step fine_Hex_. destruct a0; [finish_with fine_int_token|].
-    step fine_Binary_. destruct a0; [finish_with fine_int_token|].
+    step fine_Hex_. destruct a0; [apply Fin; assumption|].
+    step fine_Binary_. destruct a0; [apply Fin; eapply ext_trans; eauto|].
     step fine_Float_. destruct a0.
     - step_pos. destruct (buildFloat T _). done_ret. exact I.
-    - step fine_IntSuffix_. step_pos.
+    - (* m_position = start: the integer is read again from the start of the token *)
+      apply post_bind. simpl.
+      set (sr := mkState (pos s0) (depth s3) (user s3)).
+      assert (E03 : ext s0 s3) by (eapply ext_trans; [exact E5|]; eapply ext_trans; [exact E7|exact E9]).
+      assert (Er : ext s0 sr).
+      { apply ext_intro; simpl; auto; [apply (ext_depth' _ _ E03)|apply (ext_user' _ _ E03)]. }
+      assert (Esr : ext s sr) by (eapply ext_trans; [exact E2|exact Er]).
+      clear E E1 E3 E4 E5 E6 E7 E8 E9 E03.
+      step (fine_skip_while (a_int A)). step fine_IntSuffix_. step_pos.
       destruct (pos_str _ _) as [|c r]; [done_ret; exact I|].
-      destruct (c =? 48)%N; finish_with fine_int_token.
+      assert (E0x : ext s0 s5) by (eapply ext_trans; [exact Er|]; eapply ext_trans; eassumption).
+      destruct (c =? 48)%N; apply Fin; exact E0x.
   Qed.
 
   Lemma fine_with_depth {X} (m : M U X) (P : X -> Position -> Position -> Prop) :
